@@ -28,7 +28,7 @@ import (
 func init() {
 	register(target{name: "kv.fromproto", per: 400, quick: 12, thorough: 1200, run: runKVFromProto})
 	register(target{name: "headsync", per: 300, quick: 12, thorough: 1000, run: runHeadSync})
-	register(target{name: "ldiff.hostile-remote", per: 60, quick: 16, thorough: 1500, run: runHostileRemote})
+	register(target{name: "ldiff.hostile-remote", per: 60, quick: 16, thorough: 600, run: runHostileRemote})
 	register(target{name: "handshake", per: 300, quick: 16, thorough: 1400, run: runHandshake})
 }
 
